@@ -485,7 +485,7 @@ func (x *Exec) makeSlice(st *State, elem types.Type, ln, cp Term) Term {
 	s := x.makeSliceRaw(st, elem, ln, cp, true)
 	h := x.heap(st, elem)
 	zero := x.zeroOf(elem)
-	arr := Term{fmt.Sprintf("((as const %s) %s)", ArraySort(SBV64, es), zero.S), ArraySort(SBV64, es)}
+	arr := x.constArray(ArraySort(SBV64, es), zero)
 	x.setHeap(st, elem, Store(h, sBase(s), arr))
 	return s
 }
